@@ -30,20 +30,22 @@ func init() {
 	mon.Register(&mon.Property{
 		ID:    "C08",
 		Level: "exploration",
-		Rule: "generated Swagger 2.0 APIs (1-4 operations; produces lists of 1-4 types over a 6-type vocabulary, entries with and without parameters such as '; charset=utf-8', op-level or global; API default type " +
-			"application/json / another type / none; the default listed in produces or not; one declared 2xx code of {200,201,202,204} plus non-2xx/default responses, or default-only; methods GET POST PUT DELETE PATCH HEAD; " +
-			"basic-auth operations with realm set/unset) served by the real RoutesHandler over an untyped.API whose every producer is tagged and whose registrations pass api.Validate(); " +
+		Rule: "generated Swagger 2.0 APIs (1-4 operations; produces lists of 1-4 types over the 10-type vocabulary of C07 (with type-prefix siblings such as text / texture / textile), entries with and without parameters such as '; charset=utf-8', op-level or global; API default type " +
+			"application/json / another type / none; the default listed in produces or not; one declared 2xx code of {200,201,202,204} - or, for a quarter of the operations, several of them (200+204, 200+201+202, ...) - plus non-2xx/default responses, or default-only; methods GET POST PUT DELETE PATCH HEAD; " +
+			"basic-auth operations with realm set/unset, optionally an API authorizer that denies chosen requests (errors.Error 403 or a plain error); operations with a required query parameter that a request may omit) served by the real RoutesHandler over an untyped.API whose every producer is tagged and whose registrations pass api.Validate(); " +
 			"requests = Accept headers from C07's grammar generator x handler outcomes {value, nil, custom Responder, middleware.Error(code<=0|4xx|5xx, data, headers), NotImplemented, errors.Error, plain error, composite error} " +
-			"x credentials {none, wrong, malformed, right} x unknown path / wrong method. Oracle from the statement over the observed MatchedRoute.Produces order. " +
+			"x credentials {none, wrong, malformed, right} x unknown path / wrong method. Oracle from the statement; the offers are computed from the DECLARED produces (operation, else spec) plus the API default, the observed MatchedRoute.Produces must be that set and only lends its order. " +
 			"non-trivial = request that reached the stage it was meant for; distinct by (entry shape of the negotiated type, Accept flavour, outcome kind, method, declared code, stage)",
 		Assumptions: []string{
-			"negotiated type = C07's reference selection over the statement's offer list (observed produces without the API default, default last); when header.ParseAccept already fails C07's oracle on the header, the announced Content-Type is taken as negotiated and only the remaining clauses are judged",
+			"negotiated type = C07's reference selection over the statement's offer list (declared produces without the API default in the order the router holds them, default last); the router's list must hold exactly the declared types plus the default; when header.ParseAccept already fails C07's oracle on the header, the announced Content-Type is taken as negotiated and only the remaining clauses are judged",
 			"'the producer registered for that media type (parameters ignored)' = the producer registered under the announced type with its parameters stripped; every registration is tagged and api.Validate() passes (a catalogue operation lists every registered key)",
 			"operations with only a 'default' response (no declared success status) are judged for absence of panics only",
 			"a Responder result (custom or the library's own) on HEAD or for a 204 operation writes what it wants: body not judged there",
 			"404/405 answers: only 'the error responder is invoked once with an error of that code and a Content-Type is set' is judged (the offers are a map-ordered list that cannot be observed)",
 			"basic auth: the authenticate callback reports bad credentials with an error; realm unset or \"\" means the library default security.DefaultRealmName; the challenge is parsed as RFC 7235 (scheme Basic, realm as quoted-string or token)",
 			"upper-case entries in produces are not generated",
+			"an operation that declares several 2xx codes: its declared success status is the lowest of them (the rule spec.Operation.SuccessResponse documents), for every response alike",
+			"a request that is both unacceptable (406) and lacks a required parameter may be refused with either error; a denied authorization is judged like a failed authentication (before the 406 gate)",
 		},
 		MinNontrivial: 150,
 		Run:           run,
@@ -60,6 +62,7 @@ type APIDesc struct {
 	Ops             []OpDesc `json:"ops"`
 	Realm           *string  `json:"realm,omitempty"`            // nil: security.BasicAuth (library default realm)
 	NoOpIDs         bool     `json:"no_operation_ids,omitempty"` // the operations declare no operationId
+	Authorizer      bool     `json:"authorizer,omitempty"`       // an API-wide authorizer is registered (it denies the requests that say so)
 }
 
 // OpDesc is one operation at /op<i>.
@@ -69,7 +72,20 @@ type OpDesc struct {
 	Codes    []int    `json:"codes,omitempty"` // declared status-code responses
 	Default  bool     `json:"default_response,omitempty"`
 	Secured  bool     `json:"secured,omitempty"`
-	Alt      bool     `json:"alt_key_after_basic,omitempty"` // secured by [{basic},{key}]: basic is not the last alternative
+	Alt      bool     `json:"alt_key_after_basic,omitempty"`  // secured by [{basic},{key}]: basic is not the last alternative
+	ReqParam bool     `json:"required_query_param,omitempty"` // declares the required query parameter "need"
+}
+
+// twoXX lists the declared 2xx codes in ascending order.
+func (o *OpDesc) twoXX() []int {
+	var out []int
+	for _, c := range o.Codes {
+		if c >= 200 && c < 300 {
+			out = append(out, c)
+		}
+	}
+	sort.Ints(out)
+	return out
 }
 
 // Outcome is what the operation handler returns.
@@ -90,6 +106,10 @@ type ReqDesc struct {
 	Auth    string  `json:"auth,omitempty"` // none wrong malformed right
 	Flow    string  `json:"flow,omitempty"` // "" the reflective (untyped) operation handler; "generated": the sequence a generated server's operation runs (RouteInfo, Authorize, BindValidRequest, Respond)
 	Outcome Outcome `json:"outcome"`
+	// OmitParam: the request leaves out the required query parameter of its operation (if it declares one)
+	OmitParam bool `json:"omit_required_param,omitempty"`
+	// Deny: the API authorizer (if registered, and reached) refuses this request: "api-error" with an errors.Error 403, "plain-error" with a plain error
+	Deny string `json:"authorizer_denies,omitempty"`
 }
 
 // Case is one replayable case.
@@ -100,6 +120,9 @@ type Case struct {
 	// Warm: the requests served by the same handler just before this one (state kept across requests
 	// is part of what is judged); a replay serves them first, unjudged.
 	Warm []ReqDesc `json:"earlier_requests,omitempty"`
+	// Repeat: a replay serves the request up to this many times (each response judged) and stops at the first
+	// violation: for failures that depend on a map iteration order inside the library
+	Repeat int `json:"repeat,omitempty"`
 }
 
 func (r *ReqDesc) lines() []string {
@@ -185,6 +208,9 @@ func (d *APIDesc) swagger() []byte {
 		if len(op.Produces) > 0 {
 			o["produces"] = op.Produces
 		}
+		if op.ReqParam {
+			o["parameters"] = []interface{}{map[string]interface{}{"name": "need", "in": "query", "required": true, "type": "string"}}
+		}
 		if op.Secured {
 			o["security"] = []interface{}{map[string]interface{}{"basic": []string{}}}
 			if op.Alt {
@@ -233,8 +259,9 @@ func render(v interface{}) string {
 }
 
 type prodCall struct {
-	tag string
-	v   interface{}
+	tag      string
+	v        interface{}
+	rendered string // what the value looked like when the producer got it
 }
 
 type errCall struct {
@@ -254,6 +281,9 @@ type observation struct {
 	respCT      string
 	serveErr    []errCall
 	authCalls   int
+	authzCalls  int
+	denyErr     error // the error the authorizer returned
+	bindErr     error // the error the generated-flow binder returned
 }
 
 type built struct {
@@ -270,7 +300,7 @@ type tagProducer struct {
 }
 
 func (p *tagProducer) Produce(w io.Writer, v interface{}) error {
-	p.b.obs.produced = append(p.b.obs.produced, prodCall{p.tag, v})
+	p.b.obs.produced = append(p.b.obs.produced, prodCall{p.tag, v, render(v)})
 	if pl, ok := v.(*payload); ok && strings.HasPrefix(pl.Token, failingToken) {
 		// a producer that fails half-way: what it wrote must not leak into any other response
 		_, _ = io.WriteString(w, "[PARTIAL-OUTPUT-OF-A-FAILED-PRODUCER]")
@@ -331,6 +361,21 @@ func build(d *APIDesc) (*built, error) {
 		// never applicable in the generated requests (no X-Key header is sent)
 		api.RegisterAuth("key", security.APIKeyAuth("X-Key", "header", func(string) (interface{}, error) { return nil, errors.Unauthenticated("key") }))
 	}
+	if d.Authorizer {
+		api.RegisterAuthorizer(runtime.AuthorizerFunc(func(_ *http.Request, _ interface{}) error {
+			b.obs.authzCalls++
+			if b.cur == nil {
+				return nil
+			}
+			switch b.cur.Deny {
+			case "api-error":
+				b.obs.denyErr = errors.New(http.StatusForbidden, "denied by the authorizer")
+			case "plain-error":
+				b.obs.denyErr = fmt.Errorf("denied by the authorizer (plain error)")
+			}
+			return b.obs.denyErr
+		}))
+	}
 	for i, op := range d.Ops {
 		api.RegisterOperation(op.Method, fmt.Sprintf("/op%d", i), runtime.OperationHandlerFunc(func(interface{}) (interface{}, error) {
 			return b.handle()
@@ -364,7 +409,12 @@ func (b *built) handle() (interface{}, error) {
 	case "lib-error":
 		var hs []http.Header
 		if len(o.Headers) > 0 {
-			hs = append(hs, http.Header(o.Headers))
+			// the library gets its own copy: the case's map is what the response is judged against
+			hc := http.Header{}
+			for k, vs := range o.Headers {
+				hc[k] = append([]string(nil), vs...)
+			}
+			hs = append(hs, hc)
 		}
 		res = middleware.Error(o.Code, o.Data, hs...)
 	case "not-implemented":
@@ -398,9 +448,20 @@ func (b *built) handler() (http.Handler, *middleware.Context) {
 	return h, ctx
 }
 
-type nopBinder struct{}
+// genBinder is the parameter binding of a generated operation: it checks the required query parameter
+// itself (BindValidRequest leaves parameters to the binder).
+type genBinder struct{ b *built }
 
-func (nopBinder) BindRequest(*http.Request, *middleware.MatchedRoute) error { return nil }
+func (g genBinder) BindRequest(r *http.Request, _ *middleware.MatchedRoute) error {
+	b := g.b
+	if b.cur != nil && b.cur.Op >= 0 && b.cur.Op < len(b.desc.Ops) && b.desc.Ops[b.cur.Op].ReqParam {
+		if _, ok := r.URL.Query()["need"]; !ok {
+			b.obs.bindErr = errors.CompositeValidationError(errors.Required("need", "query", nil))
+			return b.obs.bindErr
+		}
+	}
+	return nil
+}
 
 // generated serves the request the way the ServeHTTP method of a go-swagger generated operation does.
 func (b *built) generated(ctx *middleware.Context, rw http.ResponseWriter, r *http.Request) {
@@ -416,7 +477,7 @@ func (b *built) generated(ctx *middleware.Context, rw http.ResponseWriter, r *ht
 	if aCtx != nil {
 		*r = *aCtx
 	}
-	if err := ctx.BindValidRequest(r, route, nopBinder{}); err != nil {
+	if err := ctx.BindValidRequest(r, route, genBinder{b}); err != nil {
 		ctx.Respond(rw, r, route.Produces, route, err)
 		return
 	}
@@ -446,19 +507,6 @@ func sameList(a, b []string) bool {
 		}
 	}
 	return true
-}
-
-func respondOffers(produces []string, def string) []string {
-	out := make([]string, 0, len(produces)+1)
-	for _, p := range produces {
-		if p != def {
-			out = append(out, p)
-		}
-	}
-	if def != "" {
-		out = append(out, def)
-	}
-	return out
 }
 
 // ---- the basic-auth challenge ----
@@ -555,7 +603,7 @@ func errCode(err error) int {
 	return 0
 }
 
-func runCaseOn(m *mon.M, c *Case, b *built, h http.Handler) {
+func runCaseOn(m *mon.M, c *Case, b *built, h http.Handler) (violated bool) {
 	d := b.desc
 	rq := &c.Req
 	op := d.Ops[rq.Op]
@@ -570,10 +618,18 @@ func runCaseOn(m *mon.M, c *Case, b *built, h http.Handler) {
 	case "wrong-method":
 		method = "OPTIONS"
 	}
+	if op.ReqParam && !rq.OmitParam {
+		path += "?need=v"
+	}
 	req := httptest.NewRequest(method, path, nil)
 	if lines != nil {
-		req.Header["Accept"] = lines
+		req.Header["Accept"] = append([]string{}, lines...) // the library gets its own copy
 	}
+	declared := op.Produces
+	if len(declared) == 0 {
+		declared = d.Global
+	}
+	multi := len(op.twoXX()) > 1
 	switch rq.Auth {
 	case "wrong":
 		req.SetBasicAuth(goodUser, "not-"+goodPass)
@@ -584,12 +640,17 @@ func runCaseOn(m *mon.M, c *Case, b *built, h http.Handler) {
 	}
 	rec := httptest.NewRecorder()
 	minimal := func() *Case {
-		dd := &APIDesc{DefaultProduces: d.DefaultProduces, Global: d.Global, Ops: []OpDesc{op}, Realm: d.Realm}
+		dd := &APIDesc{DefaultProduces: d.DefaultProduces, Global: d.Global, Ops: []OpDesc{op}, Realm: d.Realm, Authorizer: d.Authorizer}
 		r2 := *rq
 		r2.Op = 0
-		return &Case{API: dd, Req: r2, WantOrder: b.obs.produces}
+		cs := &Case{API: dd, Req: r2, WantOrder: b.obs.produces}
+		if multi {
+			cs.Repeat = 200 // which of the declared 2xx codes comes out may depend on a map order
+		}
+		return cs
 	}
 	violate := func(sig, detail string) {
+		violated = true
 		cs := minimal()
 		if !inTrial && shrinks[sig] < 3 {
 			shrinks[sig]++
@@ -602,7 +663,7 @@ func runCaseOn(m *mon.M, c *Case, b *built, h http.Handler) {
 		// the statement says nothing about a failing producer (the code panics for a recovery middleware):
 		// this request is not judged; it is there for what it may leave behind for the next ones
 		m.Class("producer-failure-injected")
-		return
+		return false
 	}
 	obs := *b.obs
 	res := rec.Result()
@@ -621,7 +682,7 @@ func runCaseOn(m *mon.M, c *Case, b *built, h http.Handler) {
 		m.Class("stage:" + rq.Route)
 		if pv != nil {
 			violate("panic/"+rq.Route, fmt.Sprintf("%s %s panicked: %v\n%s", method, path, pv, st))
-			return
+			return violated
 		}
 		m.NT(fmt.Sprintf("%s|%s|%s", rq.Route, rq.Flavour, d.DefaultProduces))
 		switch {
@@ -634,24 +695,33 @@ func runCaseOn(m *mon.M, c *Case, b *built, h http.Handler) {
 		case obs.serveErr[0].ctEntry == "":
 			violate("error-content-type/"+rq.Route, fmt.Sprintf("%s %s: no Content-Type set when the error responder was invoked", method, path))
 		}
-		return
+		return violated
 	}
 	if !obs.routed {
 		if pv != nil {
 			violate("panic/before-routing", fmt.Sprintf("%v\n%s", pv, st))
-			return
+			return violated
 		}
 		m.Class("not-routed(harness)")
-		return
+		return violated
 	}
 	m.SetAdd("observed-produces-orders", strings.Join(obs.produces, " | "))
 
+	// ---- the operation's offers: what it DECLARES plus the API default; the router's list must be that set ----
+	if f, det := accept.OfferSetDiff(obs.produces, declared, d.DefaultProduces); f != "" {
+		violate("offers-differ-from-declaration/"+f, fmt.Sprintf("%s %s: MatchedRoute.Produces: %s", method, path, det))
+	}
+	if lines != nil && !sameList(req.Header["Accept"], lines) {
+		violate("caller-header-modified", fmt.Sprintf("%s %s: Accept lines %q sent, %q in the request afterwards", method, path, lines, req.Header["Accept"]))
+	}
+	offers := accept.StatementOffers(obs.produces, declared, d.DefaultProduces)
+
 	// ---- reference negotiation ----
 	p := accept.ParseStrict(lines, true)
-	negOK := p.Judged && accept.CleanOffers(obs.produces, true)
+	negOK := p.Judged && accept.CleanOffers(offers, true)
 	if negOK && p.Present {
 		var specs []header.AcceptSpec
-		mon.Catch(func() { specs = header.ParseAccept(req.Header, "Accept") })
+		mon.Catch(func() { specs = header.ParseAccept(http.Header{"Accept": append([]string{}, lines...)}, "Accept") })
 		vals := make([]string, len(specs))
 		qs := make([]float64, len(specs))
 		for i, s := range specs {
@@ -666,8 +736,8 @@ func runCaseOn(m *mon.M, c *Case, b *built, h http.Handler) {
 	}
 	var gate, neg accept.Pick
 	if negOK {
-		gate = accept.Select(p.Present, p.Ranges, obs.produces, true)
-		neg = accept.Select(p.Present, p.Ranges, respondOffers(obs.produces, d.DefaultProduces), true)
+		neg = accept.Select(p.Present, p.Ranges, offers, true)
+		gate = neg // 406 <=> nothing of the declared types (default included) is acceptable
 	}
 	wantCT := func() (string, bool) { // the negotiated type per the statement, when it can be told
 		if !negOK {
@@ -681,9 +751,17 @@ func runCaseOn(m *mon.M, c *Case, b *built, h http.Handler) {
 
 	// ---- which stage answers ----
 	authFails := op.Secured && rq.Auth != "right"
+	denied := op.Secured && !authFails && d.Authorizer && rq.Deny != ""
+	missing := op.ReqParam && rq.OmitParam
 	switch {
 	case authFails:
 		stage = "auth"
+	case denied:
+		stage = "authorizer"
+	case missing && (!negOK || gate.None):
+		stage = "406-or-422"
+	case missing:
+		stage = "bind"
 	case negOK && gate.None:
 		stage = "406"
 	case !negOK && obs.ran == 0 && pv == nil:
@@ -703,14 +781,27 @@ func runCaseOn(m *mon.M, c *Case, b *built, h http.Handler) {
 		if strings.Contains(fmt.Sprint(pv), "can't find a producer") {
 			cls = "no-producer-found"
 		}
+		if stage != "handler" {
+			oc = "stage-" + stage
+		}
 		violate(fmt.Sprintf("panic-%s/%s/%s", cls, oc, shape), fmt.Sprintf("%s %s Accept=%q produces=%q default=%q outcome=%s: panic: %v\n%s", method, path, lines, obs.produces, d.DefaultProduces, rq.Outcome.Kind, pv, st))
-		return
+		return violated
 	}
 	succ, hasSucc := op.success()
-	m.NT(fmt.Sprintf("%s|%s|%s|%s|%s|%d|%v|%s", stage, shape, rq.Flavour, rq.Outcome.Kind, op.Method, succ, d.DefaultProduces != "", rq.Flow))
+	m.NT(fmt.Sprintf("%s|%s|%s|%s|%s|%d|%v|%s|%v|%s", stage, shape, rq.Flavour, rq.Outcome.Kind, op.Method, succ, d.DefaultProduces != "", rq.Flow, multi, rq.Deny))
 	ctx := fmt.Sprintf("%s %s Accept=%q produces=%q default=%q", method, path, lines, obs.produces, d.DefaultProduces)
 
+	isValidation := func(code int) bool { return code == http.StatusUnprocessableEntity || code >= 600 }
 	checkErrorRouted := func(kind string, wantErr error, wantCode int) bool {
+		codeOK := func(got int) bool {
+			switch wantCode {
+			case codeValidation:
+				return isValidation(got)
+			case codeValidationOr406:
+				return isValidation(got) || got == http.StatusNotAcceptable
+			}
+			return got == wantCode
+		}
 		switch {
 		case len(obs.serveErr) != 1:
 			violate("error-not-routed-to-error-responder/"+kind, fmt.Sprintf("%s: error responder invoked %d times (status %d)", ctx, len(obs.serveErr), status))
@@ -718,8 +809,8 @@ func runCaseOn(m *mon.M, c *Case, b *built, h http.Handler) {
 		case wantErr != nil && obs.serveErr[0].err != wantErr:
 			violate("error-responder-got-different-error/"+kind, fmt.Sprintf("%s: handler returned %v, error responder got %v", ctx, wantErr, obs.serveErr[0].err))
 			return false
-		case wantErr == nil && wantCode != 0 && errCode(obs.serveErr[0].err) != wantCode:
-			violate("error-responder-got-different-error/"+kind, fmt.Sprintf("%s: expected an error of code %d, error responder got %v", ctx, wantCode, obs.serveErr[0].err))
+		case wantErr == nil && wantCode != 0 && !codeOK(errCode(obs.serveErr[0].err)):
+			violate("error-responder-got-different-error/"+kind, fmt.Sprintf("%s: expected %s, error responder got %v (code %d)", ctx, codeText(wantCode), obs.serveErr[0].err, errCode(obs.serveErr[0].err)))
 			return false
 		}
 		if len(obs.produced) != 0 {
@@ -742,10 +833,10 @@ func runCaseOn(m *mon.M, c *Case, b *built, h http.Handler) {
 	case "auth":
 		if obs.ran != 0 {
 			violate("handler-ran/failed-basic-auth", fmt.Sprintf("%s auth=%s: handler ran", ctx, rq.Auth))
-			return
+			return violated
 		}
 		if !checkErrorRouted("failed-basic-auth", nil, http.StatusUnauthorized) {
-			return
+			return violated
 		}
 		wantRealm := security.DefaultRealmName
 		if d.Realm != nil && *d.Realm != "" {
@@ -768,28 +859,53 @@ func runCaseOn(m *mon.M, c *Case, b *built, h http.Handler) {
 			violate("basic-auth-wrong-realm", fmt.Sprintf("%s auth=%s: WWW-Authenticate=%q does not name the configured realm %q", ctx, rq.Auth, ch, wantRealm))
 		}
 		m.Class("auth:" + rq.Auth)
-		return
+		return violated
+	case "authorizer":
+		if obs.ran != 0 {
+			violate("handler-ran/authorizer-denied", fmt.Sprintf("%s authorizer denies with %s: handler ran", ctx, rq.Deny))
+			return violated
+		}
+		if rq.Deny == "api-error" {
+			// an errors.Error of the authorizer is the error the stage returns: the responder must get that very error
+			checkErrorRouted("authorizer-denied", obs.denyErr, 0)
+		} else {
+			checkErrorRouted("authorizer-denied", nil, http.StatusForbidden)
+		}
+		m.Class("authorizer:" + rq.Deny)
+		return violated
+	case "bind", "406-or-422":
+		want := codeValidation
+		if stage == "406-or-422" {
+			want = codeValidationOr406
+		}
+		if rq.Flow == "generated" && obs.bindErr != nil {
+			// the generated-flow binder's own error is what BindValidRequest returns
+			checkErrorRouted("missing-required-parameter", obs.bindErr, 0)
+		} else {
+			checkErrorRouted("missing-required-parameter", nil, want)
+		}
+		return violated
 	case "406":
 		if obs.ran != 0 {
 			violate("handler-ran/nothing-acceptable", fmt.Sprintf("%s: handler ran although nothing is acceptable", ctx))
-			return
+			return violated
 		}
 		checkErrorRouted("not-acceptable", nil, http.StatusNotAcceptable)
-		return
+		return violated
 	case "unknown-early":
 		if len(obs.serveErr) != 1 {
 			violate("error-not-routed-to-error-responder/early-stage", fmt.Sprintf("%s: handler did not run, error responder invoked %d times, status %d", ctx, len(obs.serveErr), status))
 		}
-		return
+		return violated
 	}
 
 	// ---- the handler was due ----
 	if obs.ran != 1 {
 		if !negOK && obs.ran == 0 {
-			return
+			return violated
 		}
 		violate("handler-ran-not-once", fmt.Sprintf("%s: handler ran %d times, status %d", ctx, obs.ran, status))
-		return
+		return violated
 	}
 	m.Class("outcome:" + rq.Outcome.Kind)
 	// the type announced, and the one the statement negotiates
@@ -801,14 +917,14 @@ func runCaseOn(m *mon.M, c *Case, b *built, h http.Handler) {
 		case "responder":
 			if obs.respCalls == 1 && obs.respCT != w {
 				violate("wrong-content-type/"+oc, fmt.Sprintf("%s: Content-Type %q when the Responder was invoked, statement negotiates %q", ctx, obs.respCT, w))
-				return
+				return violated
 			}
 			announced = obs.respCT
 		default:
 			if hasSucc || oc != "value" {
 				if ct != w {
 					violate("wrong-content-type/"+oc, fmt.Sprintf("%s: Content-Type %q, statement negotiates %q", ctx, ct, w))
-					return
+					return violated
 				}
 			}
 		}
@@ -822,11 +938,17 @@ func runCaseOn(m *mon.M, c *Case, b *built, h http.Handler) {
 	case "value", "nil":
 		if !hasSucc {
 			m.Class("default-only:not-judged")
-			return
+			return violated
 		}
 		if status != succ {
-			violate("wrong-status/value", fmt.Sprintf("%s: status %d, declared success status %d (responses %v)", ctx, status, succ, op.Codes))
-			return
+			sig := "wrong-status/value"
+			for _, c2 := range op.twoXX() {
+				if multi && c2 == status {
+					sig = "wrong-status/value/another-of-several-declared-2xx-codes"
+				}
+			}
+			violate(sig, fmt.Sprintf("%s: status %d, declared success status %d (responses %v)", ctx, status, succ, op.Codes))
+			return violated
 		}
 		if op.Method == http.MethodHead || succ == http.StatusNoContent {
 			why := "head"
@@ -837,7 +959,7 @@ func runCaseOn(m *mon.M, c *Case, b *built, h http.Handler) {
 				violate("body-for-"+why, fmt.Sprintf("%s: %d producer calls, body %q", ctx, len(obs.produced), body))
 			}
 			m.Class("no-body:" + why)
-			return
+			return violated
 		}
 		switch {
 		case len(obs.produced) == 0:
@@ -846,10 +968,10 @@ func runCaseOn(m *mon.M, c *Case, b *built, h http.Handler) {
 			violate("producer-ran-not-once/value", fmt.Sprintf("%s: %d producer calls", ctx, len(obs.produced)))
 		case obs.produced[0].tag != wantTag:
 			violate("wrong-producer/value/"+shape, fmt.Sprintf("%s: Content-Type %q but the body was written by the producer registered for %q; body %q", ctx, announced, obs.produced[0].tag, clip(body)))
-		case obs.produced[0].v != obs.returned:
-			violate("producer-got-different-value/value", fmt.Sprintf("%s: handler returned %v, producer got %v", ctx, obs.returned, obs.produced[0].v))
-		case body != "["+wantTag+"]"+render(obs.returned):
-			violate("body-mismatch/value", fmt.Sprintf("%s: body %q, the producer wrote %q", ctx, clip(body), "["+wantTag+"]"+render(obs.returned)))
+		case obs.produced[0].v != obs.returned || obs.produced[0].rendered != wantRendered(&rq.Outcome):
+			violate("producer-got-different-value/value", fmt.Sprintf("%s: handler returned %s, producer got %s", ctx, wantRendered(&rq.Outcome), obs.produced[0].rendered))
+		case body != "["+wantTag+"]"+wantRendered(&rq.Outcome):
+			violate("body-mismatch/value", fmt.Sprintf("%s: body %q, the producer wrote %q", ctx, clip(body), "["+wantTag+"]"+wantRendered(&rq.Outcome)))
 		}
 	case "responder":
 		switch {
@@ -874,14 +996,14 @@ func runCaseOn(m *mon.M, c *Case, b *built, h http.Handler) {
 		}
 		if status != wantStatus {
 			violate("wrong-status/library-responder", fmt.Sprintf("%s: middleware.Error(%d, …) answered %d", ctx, rq.Outcome.Code, status))
-			return
+			return violated
 		}
 		for k, vs := range rq.Outcome.Headers {
 			got := res.Header.Values(k)
 			for _, v := range vs {
 				if !containsStr(got, v) {
 					violate("library-responder-header-missing", fmt.Sprintf("%s: header %s: %q supplied to middleware.Error, response has %q", ctx, k, vs, got))
-					return
+					return violated
 				}
 			}
 		}
@@ -900,6 +1022,34 @@ func runCaseOn(m *mon.M, c *Case, b *built, h http.Handler) {
 	case "api-error", "plain-error", "composite-error":
 		checkErrorRouted(rq.Outcome.Kind, obs.returnedErr, 0)
 	}
+	return violated
+}
+
+// pseudo codes for checkErrorRouted
+const (
+	codeValidation      = -422 // a validation failure: 422 or one of the 6xx validation codes
+	codeValidationOr406 = -406 // ... or 406
+)
+
+func codeText(c int) string {
+	switch c {
+	case codeValidation:
+		return "a validation error (422 / 6xx)"
+	case codeValidationOr406:
+		return "a validation error (422 / 6xx) or 406"
+	}
+	return fmt.Sprintf("an error of code %d", c)
+}
+
+// wantRendered is what the value the handler returns looks like, computed from the case alone.
+func wantRendered(o *Outcome) string {
+	switch o.Kind {
+	case "value":
+		return render(&payload{Token: o.Data})
+	case "nil":
+		return render(nil)
+	}
+	return ""
 }
 
 // ---- witness minimisation ----
@@ -997,10 +1147,53 @@ func shrinkCase(c *Case, sig, detail string) (*Case, string) {
 			n.API.Ops[0].Default = false
 			cands = append(cands, n)
 		}
-		if op.Secured && c.Req.Auth == "right" {
+		if op.Secured && c.Req.Auth == "right" && c.Req.Deny == "" {
 			n := cloneCase(c)
-			n.API.Ops[0].Secured, n.API.Realm, n.Req.Auth = false, nil, ""
+			n.API.Ops[0].Secured, n.API.Ops[0].Alt, n.API.Realm, n.API.Authorizer, n.Req.Auth = false, false, nil, false, ""
 			cands = append(cands, n)
+		}
+		if op.ReqParam && !c.Req.OmitParam {
+			n := cloneCase(c)
+			n.API.Ops[0].ReqParam = false
+			cands = append(cands, n)
+		}
+		if c.API.Authorizer && c.Req.Deny == "" {
+			n := cloneCase(c)
+			n.API.Authorizer = false
+			cands = append(cands, n)
+		}
+		if len(op.twoXX()) > 2 {
+			// several 2xx codes: the lowest and one other are enough
+			for _, other := range op.twoXX()[1:] {
+				n := cloneCase(c)
+				var keep []int
+				for _, c2 := range op.Codes {
+					if c2 < 200 || c2 >= 300 || c2 == op.twoXX()[0] || c2 == other {
+						keep = append(keep, c2)
+					}
+				}
+				n.API.Ops[0].Codes = keep
+				cands = append(cands, n)
+			}
+		}
+		if len(op.twoXX()) > 1 {
+			var non2 []int
+			for _, c2 := range op.Codes {
+				if c2 < 200 || c2 >= 300 {
+					non2 = append(non2, c2)
+				}
+			}
+			if len(non2) > 0 {
+				n := cloneCase(c)
+				var keep []int
+				for _, c2 := range op.Codes {
+					if c2 >= 200 && c2 < 300 {
+						keep = append(keep, c2)
+					}
+				}
+				n.API.Ops[0].Codes = keep
+				cands = append(cands, n)
+			}
 		}
 		if len(c.Req.Outcome.Headers) > 1 {
 			for k := range c.Req.Outcome.Headers {
@@ -1095,6 +1288,14 @@ func genAPI(r *rand.Rand) *APIDesc {
 			op.Default = true // default-only
 		default:
 			op.Codes = []int{[]int{200, 200, 201, 202, 204}[r.Intn(5)]}
+			if r.Intn(4) == 0 {
+				// several declared 2xx codes (200+204, 200+201+202, 201+204, ...): the declared success status is the lowest
+				for _, more := range r.Perm(4)[:1+r.Intn(2)] {
+					if c2 := []int{200, 201, 202, 204}[more]; c2 != op.Codes[0] {
+						op.Codes = append(op.Codes, c2)
+					}
+				}
+			}
 			for _, extra := range []int{400, 404, 500, 301} {
 				if r.Intn(4) == 0 {
 					op.Codes = append(op.Codes, extra)
@@ -1104,9 +1305,11 @@ func genAPI(r *rand.Rand) *APIDesc {
 		}
 		op.Secured = r.Intn(4) == 0
 		op.Alt = op.Secured && r.Intn(2) == 0
+		op.ReqParam = r.Intn(5) == 0
 		d.Ops = append(d.Ops, op)
 	}
 	d.NoOpIDs = r.Intn(4) == 0
+	d.Authorizer = d.anySecured() && r.Intn(2) == 0
 	if d.anySecured() && r.Intn(3) > 0 {
 		s := realms[r.Intn(len(realms))]
 		d.Realm = &s
@@ -1182,6 +1385,12 @@ func genReq(r *rand.Rand, d *APIDesc, i int) ReqDesc {
 	if r.Intn(3) == 0 {
 		rq.Flow = "generated"
 	}
+	if op.ReqParam && r.Intn(4) == 0 {
+		rq.OmitParam = true
+	}
+	if d.Authorizer && op.Secured && r.Intn(4) == 0 {
+		rq.Deny = []string{"api-error", "plain-error"}[r.Intn(2)]
+	}
 	return rq
 }
 
@@ -1251,5 +1460,9 @@ func runReplayCase(m *mon.M, c *Case) {
 			runCaseOn(scratch, &Case{API: c.API, Req: c.Warm[i]}, b, h)
 		}
 	}
-	runCaseOn(m, c, b, h)
+	for i := 0; i == 0 || i < c.Repeat; i++ {
+		if runCaseOn(m, c, b, h) {
+			break
+		}
+	}
 }
